@@ -370,7 +370,7 @@ func (r *Rig) goCall(c *RigClient, kind, tok string, plan Plan, preCancelled boo
 		case "noctx":
 			p.Res, p.Err = c.C.NoCtx(tok, plan)
 		case "sub":
-			p.Ch, p.Err = c.C.Sub(ctx, tok, plan)
+			p.Ch, p.Err = c.C.OpenSub(ctx, tok, plan)
 		}
 	}()
 	return p
